@@ -185,7 +185,7 @@ func katCase(c *ev.Case) {
 
 func main() {
 	r := ev.New("C08")
-	r.Rule("one case = one generated input tuple: (key 16/24/32, iv, plaintext 0..80 by index plus larger sizes, layout) for cbc/gcm; one GCM message with every single-bit flip of ciphertext, tag, nonce and aad for gcm-tamper; one ciphertext (illegal length, random, or reference-CBC of a crafted padded tail) for cbc-hostile; one (byte string, block size) for unpad; one (d, b) for pad-roundtrip (the first 16320 indices enumerate every b in 1..255 x |d| in 1..64); one key size 0..40 for bad-key. distinct = distinct hash of the full input tuple; non-trivial = the golib call sequence ran to the end and every result was compared with the reference (empty un-padding inputs and valid-key controls are not counted)")
+	r.Rule("one case = one generated input tuple: (key 16/24/32, iv, plaintext 0..80 by index plus larger sizes, layout) for cbc/gcm; one GCM message with every single-bit flip of ciphertext, tag, nonce and aad for gcm-tamper; one ciphertext (illegal length, random, or reference-CBC of a crafted padded tail) for cbc-hostile; one (byte string, block size) for unpad; one (d, b) for pad-roundtrip (the first 16320 indices enumerate every b in 1..255 x |d| in 1..64); one key size (0..40 and a dozen larger ones up to 1024) for bad-key; one size from 8 KiB to 3 MiB for big. distinct = distinct hash of the full input tuple; non-trivial = the golib call sequence ran to the end and every result was compared with the reference (empty un-padding inputs and valid-key controls are not counted)")
 	r.Assume("crypto/aes block Encrypt/Decrypt and crypto/cipher GCM Seal/Open are the standard AES and AES-GCM (cross-checked in engine kat against published SP 800-38A and GCM-spec vectors); CBC chaining and PKCS#7 are re-implemented in the harness from their definitions")
 	r.Assume("destinations are exactly AESCBCEncryptLen / AESCBCDecryptLen / AESGCMEncryptLen / AESGCMDecryptLen bytes long; aliasing is limited to the layouts the doc comments describe (pre-grown plaintext buffer, dst = ciphertext, dst = ct[:len-16]) plus non-overlapping regions of one backing array (engine arena), which is separate memory; key/iv/nonce/aad buffers may be overwritten by the caller between calls (engine buffer-reuse); IVs are 16 bytes; nothing is asserted about dst content after a failed decryption or about the error text")
 	opt := ev.Opt{HangViolation: true, MaxCaseSeconds: 60}
@@ -196,59 +196,97 @@ func main() {
 	r.Cases("gcm-tamper", r.N(2646, 132300), opt, gcmTamperCase)
 	r.Cases("unpad", r.N(400000, 16000000), opt, unpadCase)
 	r.Cases("pad-roundtrip", r.N(rtCombos+40000, rtCombos+3000000), opt, padRoundTripCase)
-	r.Cases("bad-key", r.N(820, 41000), opt, badKeyCase)
+	r.Cases("bad-key", r.N(20*len(badKeySizes), 1000*len(badKeySizes)), opt, badKeyCase)
 	r.CasesProc("cold-start", 16, ev.Opt{Procs: 16}, coldCase)
-	r.Cases("big", r.N(24, 600), ev.Opt{Workers: 8, MaxCaseSeconds: 300}, bigCase)
+	r.Cases("big", r.N(3*len(bigSizes), 600), ev.Opt{Workers: 8, MaxCaseSeconds: 300}, bigCase)
 	r.Cases("arena", r.N(30000, 1000000), opt, arenaCase)
 	r.Cases("buffer-reuse", r.N(20000, 600000), opt, reuseCase)
 
 	// anti-vacuity floors (well below what a healthy quick run observes)
 	for k, v := range map[string]int64{
-		"kat_cbc_vectors":                       20,
-		"kat_gcm_vectors":                       20,
-		"cbc_roundtrips":                        50000,
-		"cbc_key128":                            10000,
-		"cbc_key192":                            10000,
-		"cbc_key256":                            10000,
-		"cbc_plaintext_empty":                   300,
-		"cbc_plaintext_block_aligned":           2000,
-		"cbc_encrypt_inplace":                   50000,
-		"cbc_decrypt_inplace":                   50000,
-		"cbc_hostile/illegal-ciphertext-length": 10000,
-		"cbc_hostile/valid":                     5000,
-		"cbc_hostile/valid-full-block":          1000,
-		"cbc_hostile/pad-zero":                  2000,
-		"cbc_hostile/pad-gt-block":              5000,
-		"cbc_hostile/pad-bytes":                 5000,
-		"gcm_roundtrips":                        40000,
-		"gcm_encrypt_inplace":                   40000,
-		"gcm_decrypt_inplace":                   40000,
-		"gcm_plaintext_empty":                   200,
-		"gcm_aad_nonempty":                      20000,
-		"gcm_flips_ciphertext":                  100000,
-		"gcm_flips_tag":                         100000,
-		"gcm_flips_nonce":                       100000,
-		"gcm_flips_aad":                         30000,
-		"gcm_tamper_messages":                   1000,
-		"unpad/valid":                           20000,
-		"unpad/valid-full-block":                5000,
-		"unpad/empty":                           5000,
-		"unpad/not-multiple":                    10000,
-		"unpad/pad-zero":                        5000,
-		"unpad/pad-gt-block":                    10000,
-		"unpad/pad-bytes":                       10000,
-		"unpad/blocksize-nonpositive":           1000,
-		"unpad_pkcs5_calls":                     3000,
-		"pad_roundtrip_enumerated_pairs":        rtCombos,
-		"pad_roundtrips":                        30000,
-		"pad_block_aligned_input":               500,
-		"key_size_invalid_rejected":             2000,
-		"key_size_valid_control":                30,
-		"arena_cases":                           10000,
-		"cold_start_cases":                      16,
-		"big_cases":                             20,
-		"reuse_steps":                           30000,
-		"reuse_stale_messages_rejected":         10000,
+		"kat_cbc_vectors":                                20,
+		"kat_gcm_vectors":                                20,
+		"cbc_roundtrips":                                 50000,
+		"cbc_key128":                                     10000,
+		"cbc_key192":                                     10000,
+		"cbc_key256":                                     10000,
+		"cbc_plaintext_empty":                            300,
+		"cbc_plaintext_block_aligned":                    2000,
+		"cbc_encrypt_inplace":                            50000,
+		"cbc_decrypt_inplace":                            50000,
+		"cbc_hostile/illegal-ciphertext-length":          10000,
+		"cbc_hostile/valid":                              5000,
+		"cbc_hostile/valid-full-block":                   1000,
+		"cbc_hostile/pad-zero":                           2000,
+		"cbc_hostile/pad-gt-block":                       5000,
+		"cbc_hostile/pad-bytes":                          5000,
+		"gcm_roundtrips":                                 40000,
+		"gcm_encrypt_inplace":                            40000,
+		"gcm_decrypt_inplace":                            40000,
+		"gcm_plaintext_empty":                            200,
+		"gcm_aad_nonempty":                               20000,
+		"gcm_flips_ciphertext":                           100000,
+		"gcm_flips_tag":                                  100000,
+		"gcm_flips_nonce":                                100000,
+		"gcm_flips_aad":                                  30000,
+		"gcm_tamper_messages":                            1000,
+		"unpad/valid":                                    20000,
+		"unpad/valid-full-block":                         5000,
+		"unpad/empty":                                    5000,
+		"unpad/not-multiple":                             10000,
+		"unpad/pad-zero":                                 5000,
+		"unpad/pad-gt-block":                             10000,
+		"unpad/pad-bytes":                                10000,
+		"unpad/blocksize-nonpositive":                    1000,
+		"unpad_pkcs5_calls":                              3000,
+		"pad_roundtrip_enumerated_pairs":                 rtCombos,
+		"pad_roundtrips":                                 30000,
+		"pad_block_aligned_input":                        500,
+		"key_size_invalid_rejected":                      2000,
+		"key_size_valid_control":                         30,
+		"arena_cases":                                    10000,
+		"cold_start_cases":                               16,
+		"big_cases":                                      30,
+		"big_cbc_damaged_padding_rejected":               15,
+		"big_cbc_illegal_length_rejected":                30,
+		"big_gcm_roundtrips":                             30,
+		"big_gcm_tampers_rejected":                       120,
+		"big_pkcs7_roundtrips":                           30,
+		"big_pkcs7_damaged_padding_rejected":             15,
+		"key_size_invalid_above_40_rejected":             400,
+		"cbc_encrypt_separate":                           50000,
+		"cbc_decrypt_separate":                           50000,
+		"cbc_len_helper_checks":                          100000,
+		"cbc_hostile_rejected_inplace":                   30000,
+		"cbc_hostile_rejected_separate":                  30000,
+		"cbc_hostile_valid_recovered_inplace":            3000,
+		"cbc_hostile_valid_recovered_separate":           3000,
+		"cbc_hostile_empty_ciphertext_rejected":          100,
+		"cbc_hostile_many_blocks":                        500,
+		"cbc_hostile_key128":                             20000,
+		"cbc_hostile_key192":                             20000,
+		"cbc_hostile_key256":                             20000,
+		"gcm_key128":                                     10000,
+		"gcm_key192":                                     10000,
+		"gcm_key256":                                     10000,
+		"gcm_encrypt_separate":                           40000,
+		"gcm_decrypt_separate":                           40000,
+		"gcm_len_helper_checks":                          100000,
+		"gcm_aad_empty":                                  2000,
+		"gcm_nonce_nonstandard_len":                      3000,
+		"gcm_spot_tampers_rejected":                      100000,
+		"gcm_spot_tampers_rejected_nonstandard_nonce":    10000,
+		"gcm_length_and_byte_changes":                    8000,
+		"pad_roundtrip_pkcs5":                            100,
+		"pad_input_with_spare_capacity":                  10000,
+		"unpad_pkcs7_calls":                              100000,
+		"unpad_block_1..16":                              50000,
+		"unpad_block_17..255":                            50000,
+		"unpad_block_17..255_long_pad_corrupted":         1000,
+		"unpad/valid/nonempty-d-block-1..255":            10000,
+		"unpad/valid-full-block/nonempty-d-block-1..255": 1000,
+		"reuse_steps":                                    30000,
+		"reuse_stale_messages_rejected":                  10000,
 	} {
 		r.Require(k, v)
 	}
